@@ -510,4 +510,29 @@ end
 
 end diff
 
+/-! ### the executable well-formedness test used by the driver implies `WF` -/
+
+omit [DecidableEq α] in
+mutual
+theorem wfB_sound (n : Nat) : ∀ v : Val α, wfB n v = true → WF n v
+  | .leaf _, _ => by simp [WF]
+  | .dict l, h => by
+      simp [wfB] at h
+      exact ⟨h.1, wfLB_sound n l h.2⟩
+theorem wfLB_sound (n : Nat) : ∀ l : Slots α, wfLB n l = true → WFL n l
+  | [], _ => by simp [WFL]
+  | none :: r, h => by
+      simp [wfLB] at h
+      simpa [WFL] using wfLB_sound n r h
+  | some v :: r, h => by
+      simp [wfLB] at h
+      exact ⟨wfB_sound n v h.1, wfLB_sound n r h.2⟩
+end
+
+omit [DecidableEq α] in
+/-- what the driver accepts as a dictionary over `n` keys satisfies the hypothesis `WFD n` of the theorems -/
+theorem wfd_of_wfB (n : Nat) (a : Slots α) (h : wfB n (.dict a) = true) : WFD n a := by
+  have := wfB_sound n (.dict a) h
+  simpa [WF, WFD] using this
+
 end Lena.C07
